@@ -32,7 +32,7 @@ Print Assumptions C09_priority.
     other flag and for the lower-priority sources of [f] — agree on [f] whenever the top source
     of [f] is the same. *)
 Theorem C09_sources_independent : forall w1 w2 fields args1 args2 s1 s2 rest1 rest2,
-  w_set w1 = w_set w2 ->
+  (forall k t, w_set w1 k t = w_set w2 k t) ->
   run w1 fields args1 = RParse (POk s1 rest1) -> run w2 fields args2 = RParse (POk s2 rest2) ->
   exists fs st0 asg1 asg2 ov1 ov2,
     new_flag_set (w_set w1) fields = NOk fs st0
@@ -43,6 +43,49 @@ Theorem C09_sources_independent : forall w1 w2 fields args1 args2 s1 s2 rest1 re
          get s1 (fname f) = get s2 (fname f).
 Proof. exact run_sources_independent. Qed.
 Print Assumptions C09_sources_independent.
+
+(** If the winning text of some flag (command line, else environment) is rejected by the kind's
+    Set, Parse fails — whatever the other flags and the JSON say (C10's "unparsable effective
+    value yields an error" rests on this); and no input makes NewFlagSet + Parse panic. *)
+Theorem C09_winning_text_unparsable_fails : forall w fields args fs st0 asg rest f t,
+  new_flag_set (w_set w) fields = NOk fs st0 ->
+  arg_parse (table_of fs) args = Ok asg rest -> In f fs ->
+  match cli_of asg f with Some x => Some x | None => env_of w f end = Some t ->
+  set_T (w_set w) (fkind f) t = SErr ->
+  run w fields args = RParse PErr.
+Proof. exact run_unparsable_fails. Qed.
+Print Assumptions C09_winning_text_unparsable_fails.
+
+Theorem C09_never_panics : forall w fields args, run w fields args <> RParse PPanic.
+Proof. exact run_never_panics. Qed.
+Print Assumptions C09_never_panics.
+
+(** Tags: both syntaxes split into name / default / usage at the first two separators (extra
+    separators belong to the usage); an empty name means the lower-cased field name; a nested
+    struct contributes its fields with the group path extended by its name and '_'.
+    ([C09_priority] holds for every field list, in particular for [flatten] of a struct.) *)
+Theorem C09_tag_syntax : forall n v u fld,
+  (~ In 44 n -> ~ In 44 v -> (forall r, n <> 124 :: r) ->
+     parse_tag (n ++ 44 :: v ++ 44 :: u) fld = (match n with [] => ascii_lower fld | _ => n end, v, u)
+     /\ parse_tag (n ++ 44 :: v) fld = (match n with [] => ascii_lower fld | _ => n end, v, [])
+     /\ parse_tag n fld = (match n with [] => ascii_lower fld | _ => n end, [], []))
+  /\ (~ In 124 n -> ~ In 124 v ->
+     parse_tag (124 :: n ++ 124 :: v ++ 124 :: u) fld = (match n with [] => ascii_lower fld | _ => n end, v, u)
+     /\ parse_tag (124 :: n ++ 124 :: v) fld = (match n with [] => ascii_lower fld | _ => n end, v, [])
+     /\ parse_tag (124 :: n) fld = (match n with [] => ascii_lower fld | _ => n end, [], [])).
+Proof.
+  intros n v u fld. split.
+  - intros H1 H2 H3. exact (tag_syntax n v u fld 44 (fun x => x) (or_introl (conj eq_refl (conj H3 eq_refl))) H1 H2).
+  - intros H1 H2. exact (tag_syntax n v u fld 124 (cons 124) (or_intror (conj eq_refl eq_refl)) H1 H2).
+Qed.
+Print Assumptions C09_tag_syntax.
+
+Theorem C09_struct_recursion : forall group n tag k fs,
+  flatten_field group (SLeaf n tag k)
+  = [ {| fname := fst (fst (parse_tag tag n)); fpath := group ++ n; fkind := k; fdef := snd (fst (parse_tag tag n)) |} ]
+  /\ flatten_field group (SStruct n fs) = flat_map (flatten_field (group ++ n ++ [95])) fs.
+Proof. intros. split; [apply flatten_leaf | apply flatten_struct]. Qed.
+Print Assumptions C09_struct_recursion.
 
 (** An empty textual value means the type's zero value, for every kind and every oracle —
     as a tag default, on the command line ("-name=") and in the environment (set but empty). *)
@@ -112,3 +155,11 @@ Example C09_example_env_name :
   fenv {| fname := [97]; fpath := [72;84;84;80;83;101;114;118;101;114;95;84;76;83;75;101;121;50;88]; fkind := KString; fdef := [] |}
   = [67;70;71;95;72;84;84;80;95;83;69;82;86;69;82;95;84;76;83;95;75;69;89;50;88].   (* CFG_HTTP_SERVER_TLS_KEY2X *)
 Proof. vm_compute. reflexivity. Qed.
+
+(** tags of the harness's third struct type: `flag:",33,"`, `flag:"||def|"`, `flag:"|"`, `flag:"a,b,c,d"` on field "MaxConn" *)
+Example C09_example_tags :
+  parse_tag [44;51;51;44] [77;97;120;67;111;110;110] = ([109;97;120;99;111;110;110], [51;51], [])
+  /\ parse_tag [124;124;100;101;102;124] [77;97;120;67;111;110;110] = ([109;97;120;99;111;110;110], [100;101;102], [])
+  /\ parse_tag [124] [77;97;120;67;111;110;110] = ([109;97;120;99;111;110;110], [], [])
+  /\ parse_tag [97;44;98;44;99;44;100] [77;97;120;67;111;110;110] = ([97], [98], [99;44;100]).
+Proof. vm_compute. repeat split; reflexivity. Qed.
